@@ -11,7 +11,7 @@ PROP = {
     "technique": "property-based testing (rapid): stateful machine over client.Storage against a reference model "
                  "of the registry; constructive precedence cases for ApplyClientFiltering",
     "level_text": "Generated histories of add / update (rename, drop, add, move identifiers) / remove / DHCP lease "
-                  "change over a small colliding vocabulary (IPs incl. zoned and IPv4-mapped, overlapping CIDRs, "
+                  "change / reload-from-own-content over a small colliding vocabulary (IPs incl. zoned and IPv4-mapped, overlapping CIDRs, "
                   "MACs of 6/8/20 bytes, ClientIDs); after every step the registry dump, every lookup by name, "
                   "identifier and address, and the effective settings of requests are compared with a reference "
                   "model written from the statement; operations must be accepted exactly when they share no name "
@@ -23,7 +23,7 @@ PROP = {
                   "(/control/clients/*) is not driven, concurrency is C05's subject. Trusts net/netip for "
                   "network containment.",
     "tests": [
-        ("TestVFC04Machine", (1000, 6000), {"steps": 40, "shards": (3, 16)}),
+        ("TestVFC04Machine", (1500, 6000), {"steps": 40, "shards": (3, 16)}),
         ("TestVFC04Precedence", (6000, 25000), {"shards": (1, 16)}),
     ],
     "plain": [],
